@@ -221,6 +221,12 @@ def check(repo, ctx, index, purity):
     if okc:
         st, t = clamp[0]
         sl = t.slice
+        if isinstance(sl, ast.Tuple) and len(sl.elts) == 2 and isinstance(sl.elts[1], ast.Name):
+            # the mask held in a local: its only definition, placed after every balance store and before the clamp, is the mask
+            mdefs = [a_ for a_ in ast.walk(f) if isinstance(a_, ast.Assign) and len(a_.targets) == 1 and isinstance(a_.targets[0], ast.Name) and a_.targets[0].id == sl.elts[1].id]
+            nstores = sum(1 for a_ in ast.walk(f) if isinstance(a_, ast.Name) and isinstance(a_.ctx, ast.Store) and a_.id == sl.elts[1].id)
+            if len(mdefs) == 1 and nstores == 1 and all(m_[0].lineno < mdefs[0].lineno for m_ in main) and mdefs[0].lineno < st.lineno:
+                sl = ast.Tuple(elts=[sl.elts[0], mdefs[0].value], ctx=ast.Load())
         okc = isinstance(sl, ast.Tuple) and len(sl.elts) == 2 and U.is_const(sl.elts[0], 0) and isinstance(sl.elts[1], ast.Compare) \
             and isinstance(sl.elts[1].ops[0], ast.Lt) and U.is_const(sl.elts[1].comparators[0], 0) \
             and U.chain(st.value) == ('self', 'constraints', 'minComposition')
